@@ -271,6 +271,24 @@ func genC16(g gen.G) C16Case {
 	// key-level part
 	c.KeysA = genC16Keys(g, g.Int(0, 3), gen.Subset(g, []string{"k1", "k2", "k3", "k4"}, 60))
 	c.KeysB = genC16Keys(g, g.Int(0, 3), gen.Subset(g, []string{"k1", "k2", "k3", "k4"}, 60))
+	if len(c.KeysA.Attrs) > 0 && g.Chance(15) {
+		// near misses: the second key set equals the first except for one attribute value that
+		// differs only below the resolution of a float64 / only in case / only by a trailing blank
+		c.KeysB = m.DepM{Labels: append([]m.LabelKeyM(nil), c.KeysA.Labels...), Attrs: append([]m.AttrKeyM(nil), c.KeysA.Attrs...)}
+		i := g.Int(0, len(c.KeysA.Attrs)-1)
+		pair := gen.Pick(g, [][2]cty.Value{
+			{cty.NumberIntVal(90071992547409920), cty.NumberIntVal(90071992547409921)},
+			{cty.MustParseNumberVal("0.12345678901234567891"), cty.MustParseNumberVal("0.12345678901234567892")},
+			{cty.NumberIntVal(1), cty.MustParseNumberVal("1.0000000000000000001")},
+			{cty.StringVal("aws"), cty.StringVal("AWS")},
+			{cty.StringVal("aws"), cty.StringVal("aws ")},
+			{cty.StringVal("1"), cty.NumberIntVal(1)},
+			{cty.StringVal("true"), cty.True},
+		})
+		va, vb := m.ValOf(pair[0]), m.ValOf(pair[1])
+		c.KeysA.Attrs[i] = m.AttrKeyM{Name: c.KeysA.Attrs[i].Name, Static: &va}
+		c.KeysB.Attrs[i] = m.AttrKeyM{Name: c.KeysB.Attrs[i].Name, Static: &vb}
+	}
 	n := len(c.KeysA.Labels) + len(c.KeysA.Attrs)
 	idx := make([]int, n)
 	for i := range idx {
